@@ -3,7 +3,7 @@
    quotient and normalised, for |quotient| <= 2^47 and divisors between 2^-100 and 2^100. *)
 From Coq Require Import ZArith Reals Psatz Floats.
 From Flocq Require Import Core BinarySingleNaN PrimFloat Relative.
-From PB Require Import Proofs.TwoSumExact Model.Phase2 Proofs.Floor Proofs.DayFrac Proofs.DayFrac3 Proofs.DayFracTail
+From PB Require Import Proofs.TwoSumExact Model.Phase2 Proofs.Floor Proofs.DayFrac Proofs.DayFrac3 Proofs.DayFracTail Proofs.DayFracFold
   Proofs.PhaseCmp Proofs.TwoProduct Proofs.PhaseMul Proofs.DivChain.
 Open Scope R_scope.
 
@@ -61,7 +61,7 @@ Theorem phase_div_sound (i f dv : PrimFloat.float) :
   let '(d, g) := day_frac_gen i f None (Some dv) in
   fin d /\ fin g /\ (exists k : Z, R_of d = IZR k) /\
   Rabs (R_of d + R_of g - V / R_of dv) <= bpow radix2 (-52) /\
-  Rabs (R_of g) <= / 2 + bpow radix2 (-50).
+  Rabs (R_of g) <= / 2.
 Proof.
   intros Fi Ff Fdv Bi Bf [Ldv Udv] V HV HQ. unfold day_frac_gen.
   set (D := Rabs (R_of dv)) in *.
